@@ -68,3 +68,124 @@ pub mod storage {
 
     }
 }
+
+pub mod ed25519_dalek {
+    pub struct SigningKey(pub [u8; 32]);
+    impl SigningKey {
+        pub fn to_bytes(&self) -> [u8; 32] {
+            self.0
+        }
+    }
+}
+
+pub mod crypto {
+    /// C12.R4 control: secret key bytes exported outside the one serialiser.
+    pub fn ctl_secret_exported(k: &super::ed25519_dalek::SigningKey) -> Vec<u8> {
+        k.to_bytes().to_vec()
+    }
+}
+
+pub mod replication {
+    use std::future::Future;
+    pub trait CoreMethods {
+        fn ctl_double_lock(&self) -> impl Future<Output = u64>;
+        fn ctl_lock_in_loop(&self, batch: &[&[u8]]) -> impl Future<Output = Result<u64, ()>>;
+    }
+    pub mod shared_core {
+        use super::super::async_lock::Mutex;
+        use super::super::core::Hypercore;
+        use super::CoreMethods;
+        use std::future::Future;
+        pub struct SharedCore(pub Mutex<Hypercore>);
+        impl CoreMethods for SharedCore {
+            /// C15.R1 control: two acquisitions for one operation (check-then-act).
+            fn ctl_double_lock(&self) -> impl Future<Output = u64> {
+                async move {
+                    let a = {
+                        let core = self.0.lock().await;
+                        core.info()
+                    };
+                    let core = self.0.lock().await;
+                    a + core.info()
+                }
+            }
+            /// C15.R1 control: one lock site, but re-acquired per element: a batch is not atomic.
+            fn ctl_lock_in_loop(&self, batch: &[&[u8]]) -> impl Future<Output = Result<u64, ()>> {
+                async move {
+                    let mut last = 0;
+                    for d in batch.iter() {
+                        let mut core = self.0.lock().await;
+                        last = core.append(d).await?;
+                    }
+                    Ok(last)
+                }
+            }
+        }
+    }
+    pub mod events {
+        pub struct Events;
+        pub struct Have;
+        impl Events {
+            pub fn send<T>(&self, _evt: T) -> Result<(), ()> {
+                Ok(())
+            }
+        }
+    }
+}
+
+pub mod core {
+    use super::replication::events::{Events, Have};
+    pub struct Hypercore {
+        pub events: Events,
+        pub n: u64,
+    }
+    impl Hypercore {
+        pub fn info(&self) -> u64 {
+            self.n
+        }
+        pub async fn append(&mut self, _d: &[u8]) -> Result<u64, ()> {
+            self.n += 1;
+            Ok(self.n)
+        }
+        /// C13.R1 control: an event sent by an operation that must stay silent.
+        pub fn clear(&mut self) {
+            let _ = self.events.send(Have);
+        }
+    }
+}
+
+pub mod async_lock {
+    use std::future::Future;
+    use std::ops::{Deref, DerefMut};
+    use std::pin::Pin;
+    use std::task::{Context, Poll};
+    pub struct Mutex<T>(pub std::cell::UnsafeCell<T>);
+    pub struct MutexGuard<'a, T>(pub &'a Mutex<T>);
+    pub struct Lock<'a, T>(pub &'a Mutex<T>);
+    impl<T> Mutex<T> {
+        pub fn lock(&self) -> Lock<'_, T> {
+            Lock(self)
+        }
+    }
+    impl<'a, T> Future for Lock<'a, T> {
+        type Output = MutexGuard<'a, T>;
+        fn poll(self: Pin<&mut Self>, _cx: &mut Context<'_>) -> Poll<Self::Output> {
+            Poll::Ready(MutexGuard(self.0))
+        }
+    }
+    impl<T> Deref for MutexGuard<'_, T> {
+        type Target = T;
+        fn deref(&self) -> &T {
+            unsafe { &*self.0 .0.get() }
+        }
+    }
+    impl<T> DerefMut for MutexGuard<'_, T> {
+        fn deref_mut(&mut self) -> &mut T {
+            unsafe { &mut *self.0 .0.get() }
+        }
+    }
+    impl<T> Drop for MutexGuard<'_, T> {
+        fn drop(&mut self) {}
+    }
+}
+
